@@ -74,7 +74,7 @@ using Str = std::basic_string<Ch>;
 using SV  = std::basic_string_view<Ch>;
 using EV  = etl::basic_string_view<Ch>;
 constexpr auto NPOS = static_cast<std::size_t>(-1);
-#if defined(TETL_ENABLE_CONTRACT_CHECKS)
+#if defined(TETL_ENABLE_CONTRACT_CHECKS) || defined(TETL_ENABLE_CONTRACT_CHECKS_SAFE)
 constexpr bool kChecksOff = false;
 #else
 constexpr bool kChecksOff = true; // contract checks compiled out: the appends built on push_back clamp instead of firing its precondition
